@@ -35,6 +35,10 @@ func corrVers(ctx *Ctx, stream string, cases [][2]string) {
 		reqs = append(reqs, "XC O "+hx(c[0])+" "+hx(c[1]))
 		keep = append(keep, i)
 	}
+	// the same calls made by several goroutines at once must give the same answers (concur.go)
+	concurrentRecheck(ctx, "vers", stream, len(cases),
+		func(i int) string { return vresString(versContains(cases[i][0], cases[i][1])) },
+		func(i int) any { return []string{cases[i][0], cases[i][1]} })
 	ans, err := ctx.Pool.Map(reqs)
 	if err != nil {
 		res.Notes = append(res.Notes, "model error: "+err.Error())
@@ -509,6 +513,58 @@ func checkC17(ctx *Ctx) {
 			mustErr(scheme, "misplaced-star", "vers:"+scheme+"/>="+a+"| * ", probe)
 			mustErr(scheme, "bad-bound", "vers:"+scheme+"/>=!!bad!!|<"+b, probe)
 			mustErr(scheme, "bad-bound", "vers:"+scheme+"/>="+a+"|!=??", probe)
+			// a rejected version in ONE constraint of a longer range, at every position, next to a
+			// valid constraint with the same comparator (also as a case variant of that one), with
+			// probes that equal each listed version: validation must not depend on where the bad
+			// constraint stands, on what precedes it, or on which constraint the probe meets first
+			{
+				k := 2 + r.Intn(3)
+				var txt []string
+				var cons []string
+				opsAll := []string{">=", "<", "!=", "=", "<=", ">"}
+				for i := 0; i < k; i++ {
+					v := vs[r.Intn(len(vs))]
+					txt = append(txt, v)
+					cons = append(cons, opsAll[r.Intn(len(opsAll))]+v)
+				}
+				if r.Chance(50) {
+					// several exclusions in a row
+					for i := range cons {
+						cons[i] = "!=" + txt[i]
+					}
+				}
+				flip := func(s string) string {
+					b := []byte(s)
+					for i, c := range b {
+						if c >= 'a' && c <= 'z' {
+							b[i] = c - 32
+						} else if c >= 'A' && c <= 'Z' {
+							b[i] = c + 32
+						}
+					}
+					return string(b)
+				}
+				for pos := 0; pos <= k; pos++ {
+					nb := txt[(pos+k-1)%k] // the version of the constraint before the insertion point
+					nbCons := cons[(pos+k-1)%k]
+					nbOp := strings.TrimRight(nbCons[:2], "0123456789vV")
+					if !strings.HasPrefix(nbCons, nbOp) || nbOp == "" {
+						nbOp = ">="
+					}
+					for _, badv := range []string{"?bad?", flip(nb), "V" + strings.TrimLeft(nb, "vV"), nb + "@", foreign[r.Intn(len(foreign))].s} {
+						if badv == "" || strings.ContainsAny(badv, "| \t\n*") || !isASCII(badv) || e.Parse(badv).OK || strings.ContainsAny(badv[:1], "<>=!") {
+							continue
+						}
+						for _, op := range []string{nbOp, opsAll[r.Intn(len(opsAll))]} {
+							cs2 := append(append(append([]string{}, cons[:pos]...), op+badv), cons[pos:]...)
+							rng := "vers:" + scheme + "/" + strings.Join(cs2, "|")
+							mustErr(scheme, "bad-bound-among-valid", rng, txt[r.Intn(k)])
+							mustErr(scheme, "bad-bound-among-valid", rng, nb)
+							mustErr(scheme, "bad-bound-among-valid", rng, probe)
+						}
+					}
+				}
+			}
 			mustErr(scheme, "bad-probe", good, "!!bad!!")
 			mustErr(scheme, "bad-probe", good, "")
 			if it == 0 {
